@@ -4,6 +4,7 @@
 mod ast;
 mod capture;
 mod container;
+mod crc64;
 mod prng;
 mod props;
 mod ref_container;
@@ -59,7 +60,15 @@ fn main() {
 		std::process::exit(2);
 	}
 	let code = match args[1].as_str() {
+		"C04" => dispatch(props::c04::C04, &args),
+		"C05" => dispatch(props::c05::C05, &args),
+		"C06" => dispatch(props::c06::C06, &args),
 		"C11" => dispatch(props::c11::C11, &args),
+		"C14" => dispatch(props::c14::C14, &args),
+		"C15" => dispatch(props::c15::C15, &args),
+		"C16" => dispatch(props::c16::C16, &args),
+		"C17" => dispatch(props::c17::C17, &args),
+		"C18" => dispatch(props::c18::C18, &args),
 		other => {
 			eprintln!("HARNESS-ERROR: no check for property {other}");
 			2
